@@ -153,7 +153,6 @@ impl<'t, 'i> BlockParser<'t, 'i> {
                 }
                 T![escaped] => {
                     t.append_str(&self.input[start..end], start);
-                    debug_assert_eq!(token.len(), 2, "unexpected escaped token length");
                     start = token.span.start() + 1; // skip "\"
                     end = token.span.end()
                 }
